@@ -2,7 +2,7 @@
 import collections
 import re
 
-from mirlib import AnchorMissing, describe_operand, dom_guards, guards, _suffix_match
+from mirlib import describe_rvalue, AnchorMissing, describe_operand, dom_guards, guards, _suffix_match
 from rules.common import crate_aggregates, owner_def, where
 from rules.C19 import table
 
@@ -324,6 +324,18 @@ def run(ctx):
                 src = 0
             n += 1
             r.check(which != 0 and which == src, "compare/feed_event#%d/own-side" % n, c.loc(), "validator_%d is fed an event of input %d" % (which, src), "%s is fed %s: the structure of one input is tracked with events of the other" % (v, e[:80]))
+        # after a skip the two validators report what the current events completed (the shape of a record that has just ended): the only trace of a
+        # different brace structure once both return to their initial state. The two reports must be compared and a difference must be decisive.
+        vcmp = [c for c in inc_b.calls if c.name in ("ne", "eq") and sorted(describe_operand(inc_b, a) for a in c.args) == ["feed_event(validator_1, event_1)", "feed_event(validator_2, event_2)"]]
+        okv = False
+        if len(vcmp) == 1:
+            e = inc_b.bool_edges(vcmp[0])
+            if e is not None:
+                diff_edge = e[0] if vcmp[0].name == "ne" else e[1]
+                rets = [i for i, j, p_, rv, line in inc_b.assigns() if p_[0] == 0 and not p_[1] and describe_rvalue(inc_b, rv) == "Option::Some(False)" and inc_b.dominates(diff_edge, i)]
+                okv = bool(rets)
+        r.check(okv, "compare/values-completed-after-skips-are-compared", vcmp[0].loc() if vcmp else where(inc_b), "what the two events complete in their validators is compared, and a difference answers `false`",
+                "the results of the two feed_event calls after a skip are not compared: when both inputs end there the validators are back in their initial state and differently nested records compare equal ({1,2,{}} vs {1,{2}}) while their hashes differ")
         fin = [c for c in inc_b.calls if c.name == "ne" and sorted(describe_operand(inc_b, a) for a in c.args) == ["event_1", "event_2"]]
         r.check(len(fin) == 1, "compare/mismatch-after-skips-decides", where(inc_b), "after the skips the two current events are compared once more and a mismatch is decisive")
 
@@ -332,7 +344,10 @@ def run(ctx):
         prog = ctx.program(R)
         cone = [il]
         seen = {il.defpath}
-        for b in list(cone):
+        k_ = 0
+        while k_ < len(cone):
+            b = cone[k_]
+            k_ += 1
             for c in b.calls:
                 for cb in prog.callee_bodies(c):
                     if cb.defpath not in seen and cb.crate.name == R and "record::hash" in cb.defpath:
@@ -369,6 +384,12 @@ def run(ctx):
         for i, (b, c, s) in enumerate(sorted(stops, key=lambda x: x[2])):
             r.check('"' in s, "is_implicit_record/stop-set#%d/contains-quote" % i, c.loc(), "the scan stops at a double quote (stop set %r)" % s,
                     "stop set %r has no double quote: the scan runs into string literals and takes their characters for delimiters" % s)
+        # items of an attribute body may be separated by line breaks alone: the scan at the top level stops at them and something decides on them
+        top = [x for x in stops if "," in x[2] and ";" in x[2]]
+        nl_fns = [b for b in cone for c in b.calls if c.name == "one_of" and any(ch in describe_operand(b, c.args[0]) for ch in ("\\n", "\n"))]
+        r.check(bool(top) and all(("\\n" in x[2] or "\n" in x[2]) and ("\\r" in x[2] or "\r" in x[2]) for x in top) and bool(nl_fns), "is_implicit_record/line-break-is-a-separator", top[0][1].loc() if top else where(il),
+                "the top-level scan stops at line breaks and a look-ahead decides whether one separates two items",
+                "the top-level scan does not stop at line breaks (stop set %r) or nothing examines them: `@a(1\\n2)` is the same value as `@a(1,2)` and compares equal to it, but is hashed as a single value" % (top[0][2] if top else "?"))
         # every character a decision arm tests is a stop character of the scan that precedes it
         delim = {}
         for nm, adt in (("AttrBody", "record::AttrBody"), ("RecBody", "record::RecBody")):
